@@ -39,6 +39,58 @@ Definition holds_none (c : conn) : bool :=
   negb (h_sock c) && negb (h_reader c) && negb (h_writer c) && negb (h_watcher c) &&
   negb (h_member c) && negb (h_chan c) && negb (h_timer c).
 
+(* ---- deciding a boolean property of ALL connection records by computation: a record is its
+        topic and fifteen booleans, so a property that does not look at the topic is checked on
+        the 2^15 records by vm_compute ---- *)
+Fixpoint forall_bools (n : nat) (f : list bool -> bool) : bool :=
+  match n with
+  | O => f []
+  | S n' => forall_bools n' (fun l => f (true :: l)) && forall_bools n' (fun l => f (false :: l))
+  end.
+
+Lemma forall_bools_spec n : forall f, forall_bools n f = true -> forall l, length l = n -> f l = true.
+Proof.
+  induction n as [|n IH]; intros f H l Hl.
+  - destruct l; [exact H|discriminate].
+  - destruct l as [|b l]; [discriminate|]. cbn [forall_bools] in H. apply andb_true_iff in H. destruct H as [Ht Hf].
+    inversion Hl as [Hl']. destruct b; [apply (IH _ Ht l Hl')|apply (IH _ Hf l Hl')].
+Qed.
+
+Definition bits (c : conn) : list bool :=
+  [joined c; ended c; h_sock c; h_reader c; h_writer c; h_watcher c; h_member c; h_chan c; h_timer c;
+   sock_dead c; send_closed c; cancelled c; done_ c; timer_fired c; denied_ c].
+
+Definition conn_of (tp : N) (l : list bool) : conn :=
+  match l with
+  | [j; e; hs; hr; hw; hwa; hm; hc; ht; sd; sc; ca; dn; tf; de] => mkconn j e tp hs hr hw hwa hm hc ht sd sc ca dn tf de
+  | _ => mkconn false true tp false false false false false false false false false false false false false
+  end.
+
+Lemma conn_of_bits c : conn_of (topic c) (bits c) = c.
+Proof. destruct c; reflexivity. Qed.
+
+Lemma all_conn (P : conn -> bool) :
+  (forall tp, forall_bools 15 (fun l => P (conn_of tp l)) = true) -> forall c, P c = true.
+Proof.
+  intros H c. rewrite <- (conn_of_bits c).
+  apply (forall_bools_spec 15 (fun l => P (conn_of (topic c) l)) (H (topic c)) (bits c)). reflexivity.
+Qed.
+
+Ltac by_all_conn := apply all_conn; intros tp; vm_compute; reflexivity.
+
+Lemma conn_ext c d : bits c = bits d -> topic c = topic d -> c = d.
+Proof.
+  destruct c as [j e tp hs hr hw hwa hm hc ht sd sc ca dn tf de].
+  destruct d as [j' e' tp' hs' hr' hw' hwa' hm' hc' ht' sd' sc' ca' dn' tf' de'].
+  unfold bits; proj. intros H Ht; inversion H; subst; reflexivity.
+Qed.
+
+Definition same_bits (c d : conn) : bool := list_eqb Bool.eqb (bits c) (bits d).
+Lemma same_bits_eq c d : same_bits c d = true -> bits c = bits d.
+Proof.
+  unfold same_bits. apply list_eqb_eq. intros x y. destruct x, y; cbn; split; intros H; try reflexivity; discriminate.
+Qed.
+
 Lemma held_nil c : holds_none c = true -> held c = [].
 Proof.
   destruct c as [j e tp hs hr hw hwa hm hc ht sd sc ca dn tf de]. unfold holds_none, held, all_res, holds. proj.
@@ -54,83 +106,100 @@ Qed.
 Lemma wf_connect o tp b : wfb (connect o tp b) = true.
 Proof. destruct o as [|r]; [destruct b; reflexivity|destruct r; reflexivity]. Qed.
 
+Definition real_reasons : list reason := [ClientClose; NetLoss; Expiry; Cancel; Evict].
+
+Lemma wf_end_all : forall c, implb (wfb c) (forallb (fun r => wfb (end_with r c)) real_reasons) = true.
+Proof. by_all_conn. Qed.
+
 Lemma wf_end r c : wfb c = true -> wfb (end_with r c) = true.
 Proof.
-  destruct c as [j e tp hs hr hw hwa hm hc ht sd sc ca dn tf de].
-  unfold end_with, wfb, triggered. proj. intros H.
-  destruct j; cbn [negb]; [|exact H].
-  destruct r; unfold set_sock_dead, set_timer_fired, set_denied, hub_drop; proj; try exact H; lia.
+  intros H. pose proof (wf_end_all c) as Ha. rewrite H in Ha. cbn [implb] in Ha.
+  rewrite forallb_forall in Ha.
+  destruct r as [| | | | |rr]; [apply Ha; cbn; auto 10 ..|].
+  unfold end_with. destruct (negb (joined c)); exact H.
+Qed.
+
+Lemma wf_steps_all : forall c,
+  implb (wfb c) (wfb (step_reader c) && wfb (step_writer c) && wfb (step_watcher c)) = true.
+Proof. by_all_conn. Qed.
+
+Lemma wf_steps c : wfb c = true -> wfb (step_reader c) = true /\ wfb (step_writer c) = true /\ wfb (step_watcher c) = true.
+Proof.
+  intros H. pose proof (wf_steps_all c) as Ha. rewrite H in Ha. cbn [implb] in Ha.
+  apply andb_true_iff in Ha. destruct Ha as [Ha Hc]. apply andb_true_iff in Ha. destruct Ha as [Ha Hb]. auto.
 Qed.
 
 Lemma wf_reader c : wfb c = true -> wfb (step_reader c) = true.
-Proof.
-  destruct c as [j e tp hs hr hw hwa hm hc ht sd sc ca dn tf de].
-  unfold step_reader, wfb, triggered. proj. intros H. split_ifs; [|exact H]. lia.
-Qed.
-
+Proof. intros H. apply (wf_steps c H). Qed.
 Lemma wf_writer c : wfb c = true -> wfb (step_writer c) = true.
-Proof.
-  destruct c as [j e tp hs hr hw hwa hm hc ht sd sc ca dn tf de].
-  unfold step_writer, wfb, triggered. proj. intros H. split_ifs; [|exact H]. lia.
-Qed.
-
+Proof. intros H. apply (wf_steps c H). Qed.
 Lemma wf_watcher c : wfb c = true -> wfb (step_watcher c) = true.
-Proof.
-  destruct c as [j e tp hs hr hw hwa hm hc ht sd sc ca dn tf de].
-  unfold step_watcher, wfb, triggered. proj. intros H. split_ifs; [|exact H]. lia.
-Qed.
+Proof. intros H. apply (wf_steps c H). Qed.
 
-(* the flags an observer needs are kept by every step *)
-Lemma keep_end r c : joined (end_with r c) = joined c /\ topic (end_with r c) = topic c /\
-                     (ended c = true -> ended (end_with r c) = true).
+(* the topic is never touched *)
+Lemma topic_end r c : topic (end_with r c) = topic c.
 Proof.
-  unfold end_with. destruct (joined c) eqn:J; cbn [negb]; [|auto].
-  destruct r; unfold set_sock_dead, set_timer_fired, set_denied, hub_drop; proj; auto.
+  unfold end_with. destruct (negb (joined c)); [reflexivity|].
+  destruct r; reflexivity.
 Qed.
-Lemma keep_reader c : joined (step_reader c) = joined c /\ topic (step_reader c) = topic c /\ ended (step_reader c) = ended c.
-Proof. unfold step_reader. split_ifs; auto. Qed.
-Lemma keep_writer c : joined (step_writer c) = joined c /\ topic (step_writer c) = topic c /\ ended (step_writer c) = ended c.
-Proof. unfold step_writer. split_ifs; auto. Qed.
-Lemma keep_watcher c : joined (step_watcher c) = joined c /\ topic (step_watcher c) = topic c /\ ended (step_watcher c) = ended c.
-Proof. unfold step_watcher. split_ifs; auto. Qed.
+Lemma topic_reader c : topic (step_reader c) = topic c.
+Proof. unfold step_reader. destruct (h_reader c && sock_dead c); reflexivity. Qed.
+Lemma topic_writer c : topic (step_writer c) = topic c.
+Proof. unfold step_writer. destruct (h_writer c && (send_closed c || cancelled c)); reflexivity. Qed.
+Lemma topic_watcher c : topic (step_watcher c) = topic c.
+Proof. unfold step_watcher. destruct (h_watcher c && (timer_fired c || denied_ c || done_ c)); reflexivity. Qed.
+Lemma topic_settle c : topic (settle c) = topic c.
+Proof.
+  assert (Hr : forall d, topic (round d) = topic d)
+    by (intros d; unfold round; rewrite topic_reader, topic_watcher, topic_writer; reflexivity).
+  unfold settle. rewrite Hr, Hr. reflexivity.
+Qed.
 
 (* ---- the heart: once something has ended a joined connection, two rounds of its goroutines
         give everything back ---- *)
+Lemma settle_releases_all : forall c,
+  implb (wfb c && joined c && ended c) (holds_none (settle c)) = true.
+Proof. by_all_conn. Qed.
+
 Lemma settle_releases c :
   wfb c = true -> joined c = true -> ended c = true -> holds_none (settle c) = true.
-Proof.
-  destruct c as [j e tp hs hr hw hwa hm hc ht sd sc ca dn tf de].
-  unfold wfb, triggered. proj. intros H -> ->.
-  unfold settle, round, step_reader, step_watcher, step_writer, holds_none. proj.
-  split_ifs; lia.
-Qed.
+Proof. intros H J En. pose proof (settle_releases_all c) as Ha. rewrite H, J, En in Ha. exact Ha. Qed.
 
-(* a connection nothing has ended is left alone by its goroutines *)
+(* a connection nothing has ended is left alone by its goroutines; a refused one has no
+   goroutines: nothing moves, the socket (if there was an upgrade) stays *)
+Lemma settle_fixed_all : forall c,
+  implb (wfb c && (negb (joined c) || negb (ended c))) (same_bits (settle c) c) = true.
+Proof. by_all_conn. Qed.
+
 Lemma settle_untouched c :
   wfb c = true -> joined c = true -> ended c = false -> settle c = c.
 Proof.
-  destruct c as [j e tp hs hr hw hwa hm hc ht sd sc ca dn tf de].
-  unfold wfb, triggered. proj. intros H -> ->.
-  unfold settle, round, step_reader, step_watcher, step_writer. proj.
-  split_ifs; try reflexivity; exfalso; lia.
+  intros H J En. pose proof (settle_fixed_all c) as Ha. rewrite H, J, En in Ha. cbn in Ha.
+  apply conn_ext; [apply same_bits_eq; exact Ha|apply topic_settle].
 Qed.
 
-(* a refused one has no goroutines: nothing moves, the socket (if there was an upgrade) stays *)
 Lemma settle_refused c : wfb c = true -> joined c = false -> settle c = c.
 Proof.
-  destruct c as [j e tp hs hr hw hwa hm hc ht sd sc ca dn tf de].
-  unfold wfb, triggered. proj. intros H ->.
-  unfold settle, round, step_reader, step_watcher, step_writer. proj.
-  split_ifs; try reflexivity; exfalso; lia.
+  intros H J. pose proof (settle_fixed_all c) as Ha. rewrite H, J in Ha. cbn in Ha.
+  apply conn_ext; [apply same_bits_eq; exact Ha|apply topic_settle].
 Qed.
+
+Lemma refused_only_socket_all : forall c,
+  implb (wfb c && negb (joined c))
+        (negb (h_reader c) && negb (h_writer c) && negb (h_watcher c) && negb (h_member c) && negb (h_chan c) && negb (h_timer c)) = true.
+Proof. by_all_conn. Qed.
 
 Lemma refused_holds_at_most_socket c k :
   wfb c = true -> joined c = false -> holds c k = true -> k = Sock.
 Proof.
-  destruct c as [j e tp hs hr hw hwa hm hc ht sd sc ca dn tf de].
-  unfold wfb, triggered. proj. intros H -> Hk.
-  destruct k; cbn [holds] in Hk; proj; try reflexivity; exfalso; lia.
+  intros H J Hk. pose proof (refused_only_socket_all c) as Ha. rewrite H, J in Ha. cbn in Ha.
+  repeat (apply andb_true_iff in Ha; destruct Ha as [Ha ?]).
+  destruct k; cbn [holds] in Hk; try reflexivity; rewrite Hk in *; discriminate.
 Qed.
+
+Lemma live_untouched_all : forall c,
+  implb (wfb c && joined c && negb (ended c)) (h_reader c && h_writer c && h_watcher c) = true.
+Proof. by_all_conn. Qed.
 
 (* ---- systems ---- *)
 Definition Wf (s : sys) : Prop := NoDup (keys s) /\ forall id c, clk id s = Some c -> wfb c = true.
@@ -214,7 +283,8 @@ Proof.
     destruct (h_member (settle c)); [|reflexivity]. exfalso.
     repeat (apply andb_true_iff in H; destruct H as [H ?]); discriminate.
   - rewrite settle_refused by assumption.
-    destruct c as [j e tp hs hr hw hwa hm hc ht sd sc ca dn tf de]. unfold wfb, triggered in Hw. proj. subst. lia.
+    destruct (h_member c) eqn:Hm; [|reflexivity].
+    pose proof (refused_holds_at_most_socket c Member Hw J Hm). discriminate.
 Qed.
 
 Lemma settle_all_lookup s id :
@@ -317,6 +387,7 @@ Proof.
       destruct Hk as [Hk|[Hk|Hk]]; discriminate.
   - apply andb_true_iff in Hx. destruct Hx as [J En]. apply negb_true_iff in En.
     rewrite settle_untouched by assumption.
-    destruct c as [j e tp hs hr hw hwa hm hc ht sd sc ca dn tf de]. unfold wfb, triggered in Hc. proj. subst.
-    destruct Hk as [->|[->|->]]; cbn [holds]; proj; lia.
+    pose proof (live_untouched_all c) as Ha. rewrite Hc, J, En in Ha. cbn in Ha.
+    repeat (apply andb_true_iff in Ha; destruct Ha as [Ha ?]).
+    destruct Hk as [->|[->|->]]; cbn [holds]; assumption.
 Qed.
